@@ -31,6 +31,14 @@ def instances(tier, seed):
             yield {"kind": "masks", "n": n, "masks": masks[i:i + 16]}
     for M in range(1, (5 if tier == "quick" else 7) + 1):
         yield {"kind": "star", "M": M}
+    # disconnected graphs on 7-9 vertices in which the largest component does not contain a vertex of maximum degree
+    for verts, es in (
+            (7, [(0, 1), (1, 2), (3, 4), (4, 5), (5, 6)]),                    # P3 + P4
+            (8, [(0, 1), (0, 2), (0, 3), (4, 5), (5, 6), (6, 7)]),            # star K1,3 + P4
+            (9, [(0, 1), (0, 2), (0, 3), (0, 4), (5, 6), (6, 7), (7, 8), (5, 8)]),   # star K1,4 + 4-cycle
+            (8, [(0, 1), (2, 3), (3, 4), (5, 6), (6, 7), (5, 7)]),            # K2 + P3 + triangle
+            (7, [(0, 1), (0, 2), (0, 3), (1, 4), (4, 5), (5, 6)])):           # spider
+        yield {"kind": "edges", "n": verts, "edges": es, "verts": list(range(verts))}
     if tier == "quick":
         for es in ([(0, 1), (1, 2), (2, 3), (3, 4), (0, 4)], [(0, 1), (0, 2), (1, 2), (3, 4)],
                    [(0, 1), (0, 2), (0, 3), (1, 2), (1, 3), (2, 3), (3, 4)]):
